@@ -48,7 +48,7 @@ def main(ctx):
     lim = int(os.environ.get("VERIF_BPE_LIMIT", "0"))   # debugging aid (mutation experiments): stratified subset
     if lim and len(cases) > lim:
         cases = cases[::len(cases) // lim]
-    ctx.correspond("bpe_merge/encode_piece", GROUP, REQ, cases, show="show", shard=ctx.n(12, 40),
+    ctx.correspond("bpe_merge/encode_piece", GROUP, REQ, cases, show="show", shard=ctx.n(12, 16),
                    fn_name="Bpe.ModelBpe.{bpe_new,encode_piece,bpe_merge}")
     if failed and not ctx.violations:
         ctx.proof_broken(failed, "all correspondence cases of this run")
